@@ -56,3 +56,44 @@ def warm(o, depth=0):
         except Exception:
             pass
     return n
+
+
+def snapshot(o):
+    """What the object *says* about itself: (query name, copy of the answer) for every whitelisted query it offers
+    (an exception is recorded by its type)."""
+    import copy
+    out = []
+    for name in QUERIES:
+        try:
+            a = getattr(o, name)
+        except Exception:
+            continue
+        try:
+            v = a() if callable(a) and not isinstance(a, type) else a
+            try:
+                v = copy.deepcopy(v)
+            except Exception:
+                pass
+            out.append((name, v))
+        except Exception as e:
+            out.append((name, "raises:" + type(e).__name__))
+    return out
+
+
+def changed(s0, s1, rtol=1e-9, atol=1e-9):
+    """Names of the queries whose answers differ between two snapshots (up to rounding: some answers are computed with a
+    random helper vector and are reproducible only to the last digits)."""
+    from vf.digest import diff
+    if [n for n, _ in s0] != [n for n, _ in s1]:
+        return ["<set of answerable queries>"]
+    out = []
+    for (n, a), (_, b) in zip(s0, s1):
+        try:
+            if isinstance(a, str) or isinstance(b, str):
+                if a is not b and a != b:
+                    out.append(n)
+            elif diff(a, b, rtol=rtol, atol=atol):
+                out.append(n)
+        except Exception:
+            pass
+    return out
